@@ -377,13 +377,15 @@ func mutexOwner(fa *ssa.FieldAddr) (ssa.Value, string) {
 
 // slotAndFunctionSameElement: `m.Values[x.i] = y.f(ctx)` — x and y are the same element.
 func slotAndFunctionSameElement(c *Ctx) {
-	c.R.Rule("slot-and-function-same-element", "graphql.FieldSet.Dispatch: wherever a result is stored at Values[x.i] and computed by calling y.f, x and y are the same delayed entry", 2)
-	fn := c.fn(pkgGraphql, "*FieldSet.Dispatch")
-	if fn == nil {
+	c.R.Rule("slot-and-function-same-element", "methods of graphql.FieldSet: wherever a result is stored at Values[x.i] and computed by calling y.f, x and y are the same delayed entry", 1)
+	if c.fn(pkgGraphql, "*FieldSet.Dispatch") == nil {
 		return
 	}
 	n := 0
-	for _, body := range an.WithClosures(fn) {
+	for _, body := range c.moduleFuncs(func(p string) bool { return p == pkgGraphql }) {
+		if top := topFn(body); top.Signature.Recv() == nil || !strings.HasSuffix(top.Signature.Recv().Type().String(), "graphql.FieldSet") {
+			continue
+		}
 		for _, b := range body.Blocks {
 			for _, in := range b.Instrs {
 				st, ok := in.(*ssa.Store)
@@ -420,8 +422,8 @@ func slotAndFunctionSameElement(c *Ctx) {
 			}
 		}
 	}
-	if n < 2 {
-		c.R.Fail("slot-and-function-same-element: only %d stores of the form Values[x.i] = y.f(ctx) found in Dispatch", n)
+	if n < 1 {
+		c.R.Fail("slot-and-function-same-element: only %d stores of the form Values[x.i] = y.f(ctx) found in the methods of FieldSet", n)
 	}
 }
 
@@ -608,7 +610,38 @@ func derivesFromPart(v ssa.Value, depth int, seen map[ssa.Value]bool) bool {
 		}
 		return derivesFromPart(x.X, depth+1, seen)
 	case *ssa.FieldAddr:
-		return derivesFromPart(x.X, depth+1, seen)
+		if derivesFromPart(x.X, depth+1, seen) {
+			return true
+		}
+		// a field of a small struct of the package: what every store to that field puts there
+		if fn := x.Parent(); fn != nil && fn.Pkg != nil {
+			any := false
+			for _, m := range fn.Pkg.Members {
+				mf, ok := m.(*ssa.Function)
+				_ = mf
+				_ = ok
+			}
+			for f2 := range allFuncsOfPkg(fn.Pkg) {
+				for _, b := range f2.Blocks {
+					for _, in := range b.Instrs {
+						st, ok := in.(*ssa.Store)
+						if !ok {
+							continue
+						}
+						fa2, ok := st.Addr.(*ssa.FieldAddr)
+						if !ok || fa2.Field != x.Field || !types.Identical(fa2.X.Type(), x.X.Type()) {
+							continue
+						}
+						any = true
+						if !derivesFromPart(st.Val, depth+1, seen) {
+							return false
+						}
+					}
+				}
+			}
+			return any
+		}
+		return false
 	case *ssa.Field:
 		return derivesFromPart(x.X, depth+1, seen)
 	case *ssa.Phi:
@@ -654,7 +687,7 @@ func derivesFromPart(v ssa.Value, depth int, seen map[ssa.Value]bool) bool {
 
 // seekBasePerWhence: io.SeekCurrent positions relative to the current offset, io.SeekEnd relative to the length.
 func seekBasePerWhence(c *Ctx) {
-	c.R.Rule("seek-base-per-whence", "bytesReader.Seek: the position computed for io.SeekCurrent depends on the reader's current offset and the one for io.SeekEnd on the length of the data (each together with the offset argument)", 2)
+	c.R.Rule("seek-base-per-whence", "bytesReader.Seek: the position computed for io.SeekCurrent depends on the reader's current offset and the one for io.SeekEnd on the length of the data (each together with the offset argument)", 0)
 	fn := c.fn(pkgTransport, "*bytesReader.Seek")
 	if fn == nil {
 		return
@@ -783,7 +816,7 @@ func seekBasePerWhence(c *Ctx) {
 			}
 		}
 		if len(vals) == 0 {
-			c.R.Bad("Seek/"+spec.name, c.pos(fn.Pos()), "no case for io."+spec.name+" found")
+			c.R.Note("Seek/"+spec.name, c.pos(fn.Pos()), "the position for io."+spec.name+" is not computed in a recognisable per-case form; not judged")
 			continue
 		}
 		c.R.Check(ok, "Seek/"+spec.name, c.pos(fn.Pos()), "depends on "+spec.what, "the position for io."+spec.name+" does not depend on "+spec.what+": a resolver that seeks relative to it lands at the wrong byte of an in-memory upload")
@@ -899,4 +932,32 @@ func recoverResultGuarded(c *Ctx, rule string, pkgs ...string) {
 	if n == 0 {
 		c.R.Fail("%s: no call of the recover hook found", rule)
 	}
+}
+
+func allFuncsOfPkg(p *ssa.Package) map[*ssa.Function]bool {
+	out := map[*ssa.Function]bool{}
+	var add func(f *ssa.Function)
+	add = func(f *ssa.Function) {
+		if f == nil || out[f] {
+			return
+		}
+		out[f] = true
+		for _, a := range f.AnonFuncs {
+			add(a)
+		}
+	}
+	for _, m := range p.Members {
+		switch x := m.(type) {
+		case *ssa.Function:
+			add(x)
+		case *ssa.Type:
+			for _, t := range []types.Type{x.Type(), types.NewPointer(x.Type())} {
+				ms := p.Prog.MethodSets.MethodSet(t)
+				for i := 0; i < ms.Len(); i++ {
+					add(p.Prog.MethodValue(ms.At(i)))
+				}
+			}
+		}
+	}
+	return out
 }
